@@ -341,7 +341,6 @@ package bandersnatch
 //@ modifies p
 //@ end
 
-
 //@ func PointExtended.scalarMulWindowed
 //@ layer module PointExtended bigint big.Int
 //@ smt (define-fun-rec big.fromwords ((a (Array Int Int)) (lo Int) (hi Int)) Int (ite (>= lo hi) 0 (+ (select a lo) (* 18446744073709551616 (big.fromwords a (+ lo 1) hi)))))
